@@ -167,11 +167,15 @@ def census_operators(ctx, model):
         ctx.ob("CEN-call", "%s:CEN-call" % v.name, not bad, "%d library calls, all to known pure functions" % n if not bad else "; ".join(bad[:3]), v.loc(v.op.id))
         ok = ok and not bad
     census_core(ctx, model)
+    census_build_config(ctx)
+    census_helpers(ctx, model)
     # helpers (no handlers) must not send
     for op in model.ops.values():
         if op.handlers:
             continue
         for (e, b) in op.sends:
+            if not helper_in_scope(ctx, model, b):
+                continue
             ctx.ob("CEN-S", "%s:helper-sends" % op.name, False, "a function without message handlers sends a message at %s" % e.loc, e.loc)
             ok = False
     return ok
@@ -244,3 +248,62 @@ def census_core(ctx, model):
         ctx.ob("CEN-core", "core:IntoArcSource:count", n_ias == 3, "%d IntoArcSource impls" % n_ias)
     for k, n in found.items():
         ctx.ob("CEN-core", "core:%s:present" % k, n == 1, "%d impl(s) of %s found" % (n, k))
+
+
+
+def census_build_config(ctx):
+    """CEN-CFG (build profile axis): the analysis sees the dev profile. Code whose presence depends on `debug_assertions`
+    (debug_assert!, cfg!(debug_assertions), #[cfg(debug_assertions)]) would make other profiles differ, so none may exist."""
+    import os, glob
+    repo = os.environ.get("CB_REPO", "/repo")
+    hits = []
+    for f in sorted(glob.glob(os.path.join(repo, "src", "**", "*.rs"), recursive=True)):
+        txt = re.sub(r"//[^\n]*", "", open(f).read())
+        for m in re.finditer(r"debug_assert(?:_eq|_ne)?\s*!|debug_assertions|overflow_checks|cfg\s*!\s*\(|#\[cfg\((?!feature|not\(feature|doctest|all\(feature|any\(feature)", txt):
+            line = txt[:m.start()].count("\n") + 1
+            hits.append("%s:%d: %s" % (os.path.relpath(f, repo), line, m.group(0)))
+    ctx.ob("CEN-CFG", "build-profile-axis", not hits,
+           "no code depends on debug_assertions or another build-profile cfg: the dev-profile MIR stands for every profile" if not hits else
+           "profile-dependent code (analysed only for the dev profile): %s" % hits[:3])
+
+
+KNOWN_HELPER_SUFFIXES = ("as combine::Unwrap>::unwrap", "as combine::IntoArcSource>::into_arc_source", "combine::combine",
+                         "as std::ops::Deref>::deref", "as std::convert::From<F>>::from", "as std::clone::Clone>::clone", "as std::fmt::Debug>::fmt")
+
+PROP_FAMILIES = {
+    "C06": ("map", "filter", "scan", "take", "skip", "concat", "flatten", "from_iter", "for_each", "pipe"),
+    "C07": ("map", "filter", "scan", "take", "skip"), "C08": ("merge",), "C09": ("concat",), "C10": ("combine",), "C11": ("flatten",),
+    "C12": ("share",), "C14": ("from_iter", "map", "filter", "scan", "take", "skip", "concat", "flatten"), "C15": ("from_iter",),
+    "C16": ("interval",), "C18": ("merge", "combine"), "C19": ("take",),
+}
+
+def helper_in_scope(ctx, model, bid):
+    """Is a helper body (outside every operator) relevant for this property?  By source file: src/<operator>.rs."""
+    fams = PROP_FAMILIES.get(ctx.prop)
+    if fams is None:
+        return True
+    f = model.prog.bodies[bid].file
+    m = re.match(r"src/(\w+)\.rs$", f)
+    if not m or m.group(1) in ("core", "lib"):
+        return True
+    return m.group(1) in fams
+
+
+def census_helpers(ctx, model):
+    """Local functions outside the operators (trait impls, Drop impls, free helpers) must have no protocol effect at all:
+    no send, no cell / atomic write, no call of a user closure. (An effect hidden in a Drop impl or helper would escape every arm lemma.)"""
+    bad = []
+    n = 0
+    for op in model.ops.values():
+        if op.handlers:
+            continue
+        for bid in op.bodies:
+            if not helper_in_scope(ctx, model, bid):
+                continue
+            n += 1
+            for e in model.all_effects(bid):
+                if e.tracing:
+                    continue
+                if e.kind in ("send", "usercall", "spawn", "iternext", "lock", "thunk") or (e.kind == "atomic" and e.op != "load") or (e.kind == "cell" and e.op not in ("load", "load_full")):
+                    bad.append("%s in %s at %s" % (e.kind, bid[:60], e.loc))
+    ctx.ob("CEN-helper", "helpers-have-no-protocol-effect", not bad, "%d helper bodies (trait impls, free functions) have no protocol effect" % n if not bad else "; ".join(bad[:3]))
